@@ -5,6 +5,7 @@ import (
 	"context"
 	"errors"
 	"fmt"
+	"go.sia.tech/core/consensus"
 	"net"
 	"sort"
 	"strings"
@@ -228,6 +229,10 @@ type limitCM struct {
 	activeG   map[string]int
 	calls     map[[2]int]int
 	cur, peak int // all tagged handlers running now / maximum since the last reset
+	// block submissions by the syncer's own sync (AddBlocks / AddValidatedV2Blocks)
+	addDelay time.Duration
+	curAdd   int
+	adds     int
 	// the same for the requests of the second wave only (request numbers >= 1000):
 	// a straggler of the burst whose client gave up long ago may still arrive
 	curWave, peakWave int
@@ -290,6 +295,33 @@ func (c *limitCM) BlocksForHistory(history []types.BlockID, max uint64) ([]types
 	return nil, 0, nil
 }
 
+func (c *limitCM) gateAdd(what string) func() {
+	c.mu.Lock()
+	if c.closed {
+		c.pr.add("C18.syncer-close", "chain-write-after-close", fmt.Sprintf("the syncer called %s after Syncer.Close had returned", what))
+	}
+	c.curAdd++
+	c.adds++
+	d := c.addDelay
+	c.mu.Unlock()
+	time.Sleep(d)
+	return func() {
+		c.mu.Lock()
+		c.curAdd--
+		c.mu.Unlock()
+	}
+}
+
+func (c *limitCM) AddBlocks(blocks []types.Block) error {
+	defer c.gateAdd("AddBlocks")()
+	return c.ChainManager.AddBlocks(blocks)
+}
+
+func (c *limitCM) AddValidatedV2Blocks(blocks []types.Block, states []consensus.State) error {
+	defer c.gateAdd("AddValidatedV2Blocks")()
+	return c.ChainManager.AddValidatedV2Blocks(blocks, states)
+}
+
 func c18SubnetOf(host string, bits int) string {
 	ip := net.ParseIP(host).To4()
 	mask := net.CIDRMask(bits, 32)
@@ -319,6 +351,12 @@ func c18Inflight(e *sim.Env) {
 	for i, n := 0, e.Range(1, 5); i < n; i++ {
 		tip = tree.Extend(e, tip, gen.BlockOpts{Now: now, Miner: types.VoidAddress, MinGap: true})
 	}
+	// the first client holds more of the chain than the server: the server's own
+	// sync (parallel fetch + block submission) is then in progress during the run
+	far := tip
+	for i, n := 0, e.Range(0, 40); i < n; i++ {
+		far = tree.Extend(e, far, gen.BlockOpts{Now: now, Miner: types.VoidAddress, MinGap: true})
+	}
 	nw := simnet.New(simnet.Config{Seed: e.Seed, MinLatency: time.Duration(e.Range(1, 20)) * time.Millisecond, Jitter: time.Duration(e.Range(0, 100)) * time.Millisecond})
 	e.OnCleanup(nw.Shutdown)
 
@@ -336,14 +374,15 @@ func c18Inflight(e *sim.Env) {
 
 	pr := &c18Problems{}
 	ss := newChainSUT(e, gnet, simdisk.New())
-	lcm := &limitCM{ChainManager: ss.cm, pr: pr, groupOf: map[int]string{}, block: map[[2]int]time.Duration{}, m: m, q: q, active: map[int]int{}, activeG: map[string]int{}, calls: map[[2]int]int{}}
+	lcm := &limitCM{addDelay: time.Duration(e.Range(0, 1500)) * time.Millisecond, ChainManager: ss.cm, pr: pr, groupOf: map[int]string{}, block: map[[2]int]time.Duration{}, m: m, q: q, active: map[int]int{}, activeG: map[string]int{}, calls: map[[2]int]int{}}
 	opts := []syncer.Option{
 		syncer.WithMaxInflightRPCs(m),
 		syncer.WithMaxInflightRPCsPerSubnet(q),
 		syncer.WithRPCTimeout(rpcTimeout),
 		syncer.WithMaxInboundPeers(64),
 		syncer.WithPeerDiscoveryInterval(time.Hour),
-		syncer.WithSyncInterval(time.Duration(e.Range(1, 30)) * time.Second),
+		syncer.WithSyncInterval(time.Duration(e.Range(100, 3000)) * time.Millisecond),
+		syncer.WithMaxSendBlocks(uint64([]int{1, 3, 10, 100}[e.Intn(4)])),
 	}
 	if bits != 32 || e.Chance(1, 2) {
 		opts = append(opts, syncer.WithInflightRPCSubnetPrefixes(bits, 48))
@@ -363,7 +402,11 @@ func c18Inflight(e *sim.Env) {
 	var clients []*c18Client
 	for i := 0; i < k; i++ {
 		host := fmt.Sprintf(pool[e.Intn(len(pool))], 10+i)
-		cn := newNetNodeAt(e, gnet, nw, 50+i, host, false, newTreeCM(tree.Genesis, "honest"), nil)
+		ccm := newTreeCM(tree.Genesis, "honest")
+		if i == 0 {
+			ccm = newTreeCM(far, "honest")
+		}
+		cn := newNetNodeAt(e, gnet, nw, 50+i, host, false, ccm, nil)
 		ctx, cancel := context.WithTimeout(context.Background(), 5*time.Second)
 		p, err := cn.sy.Connect(ctx, srv.addr)
 		cancel()
@@ -449,14 +492,19 @@ func c18Inflight(e *sim.Env) {
 			srv.sy.Close()
 			lcm.mu.Lock()
 			lcm.closed = true
-			cur := lcm.cur
+			cur, curAdd := lcm.cur, lcm.curAdd
 			lcm.mu.Unlock()
 			if cur != 0 {
 				pr.add("C18.syncer-close", "close-returned-early", fmt.Sprintf("Syncer.Close returned while %d RPC handlers were still running", cur))
 			}
+			if curAdd != 0 {
+				pr.add("C18.syncer-close", "close-returned-during-sync", fmt.Sprintf("Syncer.Close returned while %d block submissions of the syncer's own sync were still executing", curAdd))
+			}
 			close(ch)
 		}()
-		bound := maxBlock + 2*time.Second + 20*time.Second
+		// batches the sync has already fetched are still submitted: up to one
+		// (delayed) submission per block the server was behind
+		bound := maxBlock + time.Duration(far.Height-tip.Height+2)*lcm.addDelay + 2*time.Second + 20*time.Second
 		select {
 		case <-ch:
 		case <-time.After(bound):
@@ -589,6 +637,7 @@ func c18Inflight(e *sim.Env) {
 	doClose()
 	e.Nontrivial = true
 	e.Probe("inflight_runs")
+	e.Probes["syncer_block_submissions"] += lcm.adds
 }
 
 // ---------------------------------------------------------------------------
@@ -1006,7 +1055,7 @@ func runC18(e *sim.Env) {
 func init() {
 	register(&Prop{
 		ID: "C18", Run: runC18, Flavour: "instrumented", Quick: 4000, Thorough: 120000, Level: "exploration",
-		Rule:        "one run = one drawn scenario. threadgroup: 1-12 threads (Add / AddContext / WithContext with drawn start and hold times, several at the same instant as a Stop) and 1-3 Stop callers; Stop returns only with no added thread live, never hangs once threads end, Add is refused exactly when Done is closed, contexts are cancelled. syncer-inflight: a real serving node with drawn MaxInflightRPCs {1,2,3,5,8,64,0,-1}, MaxInflightRPCsPerSubnet {0,-1,1,2,3,4,6,10,256} and subnet prefix {/32,/24,/16,/8,/0, out of range}, 1-6 real client syncers in drawn subnets each firing 1-12 tagged SendV2Blocks requests at drawn offsets; the server's ChainManager wrapper blocks each for its drawn time (5ms-3s) and counts concurrency per peer and per subnet (never above the limits); when no client gives up early and the subnet limit is out of reach every request is answered exactly once (back-pressure, no drops); afterwards a second wave sized exactly to the limits must be admitted all at once (slots returned), then Close; 1 run in 3 closes mid-burst instead. Close must return within the longest handler + 22s, only with no handler running, Run returns, later Connect fails, no handler starts afterwards. syncer-peercap: drawn MaxInboundPeers {0,1,2,3,5,8} / MaxOutboundPeers {0..4}, cap+1..cap+12 clients connecting (2 runs in 3 at the same instant, some churning) and 0-8 known listening nodes for the peer loop; at every 25ms poll the live inbound / outbound peers stay within the caps. rhp-close: real rhp4.Server with 1-10 concurrent RPCs whose contractor / sector-store calls block for drawn times, 1-2 concurrent Close calls at a drawn instant: Close returns within bound, only with no handler inside the host's stores, none enters afterwards, later RPCs fail. wallet-close: real wallet with blocking store / syncer during rebroadcast while reorg notifications keep arriving; Close returns, with the rebroadcast loop outside every call, and no call follows; distinct = (scenario, limit configuration, fault kinds); all completed runs non-trivial",
+		Rule:        "one run = one drawn scenario. threadgroup: 1-12 threads (Add / AddContext / WithContext with drawn start and hold times, several at the same instant as a Stop) and 1-3 Stop callers; Stop returns only with no added thread live, never hangs once threads end, Add is refused exactly when Done is closed, contexts are cancelled. syncer-inflight: a real serving node with drawn MaxInflightRPCs {1,2,3,5,8,64,0,-1}, MaxInflightRPCsPerSubnet {0,-1,1,2,3,4,6,10,256} and subnet prefix {/32,/24,/16,/8,/0, out of range}, 1-6 real client syncers in drawn subnets each firing 1-12 tagged SendV2Blocks requests at drawn offsets; the server's ChainManager wrapper blocks each for its drawn time (5ms-3s) and counts concurrency per peer and per subnet (never above the limits); when no client gives up early and the subnet limit is out of reach every request is answered exactly once (back-pressure, no drops); afterwards a second wave sized exactly to the limits must be admitted all at once (slots returned), then Close; the first client also holds up to 40 blocks more than the server, whose own sync (parallel fetch, AddBlocks / AddValidatedV2Blocks delayed by a drawn time) is thus in progress; 1 run in 3 closes mid-burst instead. Close must return within the longest handler + 22s, only with no handler and no block submission of its own sync running, Run returns, later Connect fails, no handler starts afterwards. syncer-peercap: drawn MaxInboundPeers {0,1,2,3,5,8} / MaxOutboundPeers {0..4}, cap+1..cap+12 clients connecting (2 runs in 3 at the same instant, some churning) and 0-8 known listening nodes for the peer loop; at every 25ms poll the live inbound / outbound peers stay within the caps. rhp-close: real rhp4.Server with 1-10 concurrent RPCs whose contractor / sector-store calls block for drawn times, 1-2 concurrent Close calls at a drawn instant: Close returns within bound, only with no handler inside the host's stores, none enters afterwards, later RPCs fail. wallet-close: real wallet with blocking store / syncer during rebroadcast while reorg notifications keep arriving; Close returns, with the rebroadcast loop outside every call, and no call follows; distinct = (scenario, limit configuration, fault kinds); all completed runs non-trivial",
 		Real:        []string{"threadgroup.ThreadGroup", "syncer.Syncer with gateway + mux on both ends", "rhp4.Server + client RPC functions", "wallet.SingleAddressWallet", "chain.Manager"},
 		Stub:        []string{"network: simnet / simrhp in-memory transports", "blocking ChainManager / contractor / sector store / wallet store / syncer wrappers (the observation points)", "disk: simdisk.DB"},
 		Assumptions: []string{"thread-group, RHP-close and wallet-close scenarios run under the seeded lock-level scheduler (instrumented flavour); in the two syncer scenarios goroutine wake-up order is the single-P runtime's, perturbed per seed by drawn delays", "the race-detector schedules named in the property are not part of this check"},
